@@ -723,7 +723,18 @@ def _array_native(self, inputs):
     except Exception as e:  # noqa: BLE001
         return {"reproduced": self.op != "read_array_eof", "observed": f"raises {type(e).__name__}: {e}"}
     same = (list(got) == list(exp)) if isinstance(exp, list) else scalars.py_same(got, exp)
-    return {"reproduced": (not want_ok) or (not same), "observed": f"returned {got!r}, reference {'returns ' + repr(exp) if want_ok else 'refuses (input too short)'}"}
+    # stream position after the call: just past the elements (and the terminator)
+    if self.op == "read_array_n":
+        want_pos = p + cnt * n
+    elif self.op == "read_array_eof":
+        want_pos = max(p, len(data))
+    else:
+        want_pos = p + (len(els) + 1) * n
+    pos_ok = (not want_ok) or s.tell() == want_pos
+    obs = f"returned {got!r}"[:300] + f", reference {('returns ' + repr(exp))[:300] if want_ok else 'refuses (input too short)'}"
+    if not pos_ok:
+        obs += f"; stream left at {s.tell()}, expected {want_pos}"
+    return {"reproduced": (not want_ok) or (not same) or not pos_ok, "observed": obs}
 
 
 def _expected_ok(self, inputs, avail, n):
@@ -758,6 +769,13 @@ def _array_standin(self):
             body = bytes((b & 0x3F) | 0x01 for b in body)  # ordinary finite floats / BMP code units
         if self.op in ("read_0", "read_0_any"):
             variants = [body + bytes(n) + b"\x07" * 3, body + bytes(n), body, body + bytes(n - 1) if n > 1 else body]
+            if n >= 2 and self.tname not in PACKED_FLOAT:
+                # non-zero elements whose zero bytes meet across an element boundary (a run of >= n zero bytes that is not
+                # an element): x 0..0 | 0..0 y | y 0..0 | 0..0 x
+                a, b = bytes([0x41] + [0] * (n - 1)), bytes([0] * (n - 1) + [0x4E])
+                a2, b2 = bytes([0x4E] + [0] * (n - 1)), bytes([0] * (n - 1) + [0x41])
+                cyc = b"".join((a, b, a2, b2)[i % 4] for i in range(cnt))
+                variants += [cyc + bytes(n) + b"\x07" * 3, cyc]
         else:
             full = body + b"\x07" * 3
             cuts = {len(full), cnt * n, cnt * n - 1, cnt * n - n, (cnt // 2) * n, 256 * n, 255 * n, n, 1, 0}
@@ -824,6 +842,14 @@ class AbsList:
     def append(self, v):
         self.appended.append(v)
 
+    def _pyvc_join(self, interp):
+        """b"".join(result) after the loop: by the invariant the k elements are the k*size bytes from p on."""
+        if self.appended or self.window is None:
+            from pyvc.sym import Unsupported
+
+            raise Unsupported("join of a result list with pending appends")
+        return self.window
+
 
 class _Read0Loop:
     """Invariant (ghost k = elements read so far): stream.pos == p + k*size, len(result) == k, every element read so far
@@ -844,6 +870,7 @@ class _Read0Loop:
         ctx.assume(k >= 0)
         self.stream.pos = _norm(zint(self.p) + k * self.size)
         self.lst = AbsList(k)
+        self.lst.window = SBytes([self.case.seg.window(self.p, _norm(k * self.size))]) if self.var == "buf" else None
         frame.locals[self.var] = self.lst
         for n in ("data", "value", "byte", "point", "bytes_read"):
             frame.locals.pop(n, None)
@@ -866,7 +893,12 @@ class _Read0Loop:
         ctx.prove(tag + "/appends-exactly-the-element-read", len(self.lst.appended) == 1)
         if len(self.lst.appended) == 1 and self.case.tname not in PACKED_FLOAT:
             ctx.prove(tag + "/continues-only-on-a-non-zero-element", z3.Or(*[zint(b) != 0 for b in el]))
-            ctx.prove(tag + "/appended-element-is-the-standard-decoding", self.case.spec_decode_ok(ctx, self.lst.appended[0], el))
+            if self.var == "buf":
+                # char / wchar collect the raw element bytes and decode once after the loop
+                ap = self.lst.appended[0]
+                ctx.prove(tag + "/appended-element-is-the-raw-element", isinstance(ap, (SBytes, bytes)) and SBytes.of(ap).eq(SBytes(el)))
+            else:
+                ctx.prove(tag + "/appended-element-is-the-standard-decoding", self.case.spec_decode_ok(ctx, self.lst.appended[0], el))
 
 
 class Read0Case(LeafCase):
@@ -910,9 +942,20 @@ class Read0Case(LeafCase):
         ctx.prove("stops-at-the-first-zero-element", z3.And(*[zint(b) == 0 for b in el]) if self.tname not in PACKED_FLOAT else True)
         ctx.prove("terminator-consumed", ctx.eq(s.pos, _norm(zint(p) + (k + 1) * n)))
         ctx.prove("terminator-not-appended", len(loop.lst.appended) == 0)
+        if var == "buf":
+            raw = r.raw if isinstance(r, SStr) else r
+            raw = raw if isinstance(raw, SBytes) else None
+            ok = False
+            if raw is not None and len(raw.items) == 1 and isinstance(raw.items[0], Seg):
+                w = raw.items[0]
+                ok = z3.And(zint(w.off) == zint(self.seg.off) + zint(p), zint(w.n) == k * n) if w.fn is self.seg.fn else False
+            ctx.prove("value-is-exactly-the-bytes-before-the-terminator", ok, info=f"{type(r).__name__}")
+            if self.tname == "wchar":
+                ctx.prove("decoded-in-the-current-byte-order", isinstance(r, SStr) and r.endian == ("le" if ORDER[self.endian] == "little" else "be"))
 
 
 Read0Case.native = _array_native
+Read0Case.standin = _array_standin
 
 
 def make_read0(tname, endian):
@@ -920,4 +963,4 @@ def make_read0(tname, endian):
 
 
 def read0_specs():
-    return [("contracts.leaf", "make_read0", (t, e)) for t in ("uint8", "int16", "uint32", "int64", "int24", "uint48") for e in ("<", ">")]
+    return [("contracts.leaf", "make_read0", (t, e)) for t in ("uint8", "int16", "uint32", "int64", "int24", "uint48", "char", "wchar") for e in ("<", ">")]
